@@ -15,7 +15,7 @@ _STRING_CONSTS = {n: getattr(_string, n) for n in ('digits', 'ascii_letters', 'a
 _PURE = {
     'len': len, 'ord': ord, 'chr': chr, 'min': min, 'max': max, 'sum': sum, 'abs': abs, 'sorted': sorted, 'reversed': lambda x: list(reversed(x)),
     'enumerate': lambda x, start=0: list(enumerate(x, start)), 'zip': lambda *a: list(zip(*a)), 'range': lambda *a: list(_range(*a)),
-    'dict': dict, 'list': list, 'tuple': tuple, 'set': frozenset, 'frozenset': frozenset, 'str': str, 'int': int, 'bool': bool,
+    'dict': dict, 'list': list, 'tuple': tuple, 'slice': slice, 'set': frozenset, 'frozenset': frozenset, 'str': str, 'int': int, 'bool': bool,
 }
 _STR_METHODS = {'lower', 'upper', 'strip', 'lstrip', 'rstrip', 'split', 'join', 'replace', 'format', 'encode', 'startswith', 'endswith', 'isdigit', 'isalpha', 'isspace'}
 _LIMIT = 100000
